@@ -66,9 +66,12 @@ func LoadFromData(data []byte) (*api.PodSecurityConfiguration, error) {
 		return internalConfig, nil
 	}
 
-	decodedObj, err := runtime.Decode(scheme.Codecs.UniversalDecoder(), data)
+	decodedObj, gvk, err := scheme.Codecs.UniversalDecoder().Decode(data, nil, nil)
 	if err != nil {
 		return nil, err
+	}
+	if gvk != nil && gvk.Version == runtime.APIVersionInternal {
+		return nil, fmt.Errorf("unsupported apiVersion %q: the internal version cannot be used in a configuration file", gvk.GroupVersion().String())
 	}
 	configuration, ok := decodedObj.(*api.PodSecurityConfiguration)
 	if !ok {
